@@ -3,6 +3,7 @@ import json, os, sys
 import common as C
 import gen_constants
 import lane_c16
+import lane_c17
 import lane_c19
 
 QUICK_SHARDS = 4
@@ -212,6 +213,15 @@ PROPS = {
                      "whether checking is compiled in is read at run time from size_of::<Unit>() and must equal the configuration's cfg expression (mismatch = inconclusive)",
                      "micromath's powf is a coarse approximation (measured up to 0.25 absolute): its powf-derived lines are never compared across configurations, only against the EWMA law inside that build",
                      "integers kept far from overflow by construction so the debug build's overflow checks are never the observed difference"],
+    ),
+    "C17": dict(
+        run=lane_c17.run, level=EXPL, crash_is_violation=True, bin="c17",
+        technique="model-based runtime monitor (integer cell + drop counter) natively and under Miri; concurrent lost-update monitor whose event log lives inside the locked object, checked offline (exactly-once, no gaps) under native stress, Miri's data-race detector over many schedules (-Zmiri-many-seeds) and ThreadSanitizer (thorough); downstream crate built with four caller feature sets for to_dyn!",
+        rule="single-threaded: seeded sequences of <=12 operations from {clone, drop a handle, borrow-read, borrow_mut-write of a unique value, to_dyn! then continue through the trait object, two overlapping shared borrows} for each of the six variants (targets of the pointer variants are leaked boxes reclaimed by the harness), static-making macros called twice; concurrent: 3 threads x 12 increments under Miri for 16 (quick) / 64 (thorough) schedule seeds, 4x20000 (quick) / 8x100000 x5 (thorough) natively, 8x20000 under ThreadSanitizer (thorough), for ArcMutex, ArcRwLock, static Mutex, static RwLock, ArcMutex through clones; to_dyn! for Ptr / RcRefCell / PtrRwLock from a downstream crate with caller features {}, {alloc}, {std}, {alloc,std}; distinct = (variant, set of operation kinds, length class) + distinct thread interleavings observed (hash of the tid sequence in the log) + matrix cells",
+        assumptions=["References are !Send by design: each thread builds its own Reference over the shared Arc / static, as the statement words it",
+                     "a run of the concurrent workload that showed a single interleaving for a variant is inconclusive, not green",
+                     "Miri and ThreadSanitizer lanes build with the hook off; ThreadSanitizer needs -Zbuild-std (offline, ~35 s) and runs in the thorough tier only",
+                     "to_dyn! is exercised inside the harness through two dummy caller features named alloc and std; the caller-feature matrix itself is decided by probes/downstream"],
     ),
 }
 NOT_APPLICABLE = {}
